@@ -1,16 +1,17 @@
 SPECIFICATION Spec
-CONSTANTS Principals = {"A", "B"}
+CONSTANTS Principals = {"A", "A2", "B"}
           Accounts = {"alice", "carol"}
           PNames = {"P"}
           Codes = {"c1"}
           BadCodes = {}
           BoomCodes = {}
-          Strategies = {"S"}
+          Strategies = {}
           MaxReq = 8
           TempNames = {}
           GenPNames = {}
           FilterOnOwner = TRUE
           FixedF8 = TRUE
-          Person <- IdPerson
-INVARIANTS NoUnexplainedRead NoUnexplainedEffect NoUnexplainedResult ResultsMatchCode EndedNotRunning
+          Person <- DevPerson
+CONSTRAINT DevBoundNarrow
+INVARIANTS NoStaleSessionAccess
 CHECK_DEADLOCK FALSE
